@@ -111,12 +111,23 @@ def e_det(c):
 
     # thermal: T -> 4T doubles the thermal part, T -> 0 removes it; nothing happens when thermal is not selected
     yT4, yT0 = pd(T=4 * T), pd(T=0)
+    twin_cls = []
     if has_th:
         th_part = y.noise - yT0.noise
         check(float(np.max(np.abs(th_part))) > 0, "thermal-term-missing", sel)
-        check(np.max(np.abs((yT4.noise - yT0.noise) - 2 * th_part)) <= tolc(th_part, 2), "thermal-not-proportional-to-sqrt(T)", sel)
-        yF = pd(Fn=Fn + 6.0)
-        check(np.max(np.abs((yF.noise - yT0.noise) - 10 ** (6.0 / 20) * th_part)) <= tolc(th_part, 2), "thermal-not-scaled-by-Fn", sel)
+        # The realisation-level twins below presuppose that the thermal term is a draw of its own, added to the others. The statement only
+        # fixes the terms' distributions (one Gaussian draw of variance S_T + S_N for thermal+shot is equally valid), so for selections that
+        # hold both Gaussian terms the twins are conditional on that structure being observed: the thermal-only realisation under the same
+        # seed equals the part that disappears with T -> 0. Otherwise they are skipped and counted; the variances are decided by part `stat`.
+        separate = True
+        if has_sh and T > 0:
+            th_only = pd(include_noise="thermal-only").noise - dark
+            separate = bool(np.max(np.abs(th_only - th_part)) <= tolc(th_part, 2))
+        twin_cls.append("thermal-twins" if separate else "thermal-twins-skipped(no-separate-draw)")
+        if separate:
+            check(np.max(np.abs((yT4.noise - yT0.noise) - 2 * th_part)) <= tolc(th_part, 2), "thermal-not-proportional-to-sqrt(T)", sel)
+            yF = pd(Fn=Fn + 6.0)
+            check(np.max(np.abs((yF.noise - yT0.noise) - 10 ** (6.0 / 20) * th_part)) <= tolc(th_part, 2), "thermal-not-scaled-by-Fn", sel)
         if not has_ase and not has_sh:
             # sigma_T (current) ~ 1/sqrt(R_load): the voltage noise grows as sqrt(R_load)
             yR, yR0 = pd(R_load=4 * R), pd(R_load=4 * R, T=0)
@@ -215,7 +226,7 @@ def e_det(c):
     g.verify()
     g.no_alias([("PD.signal", y.signal), ("PD.noise", y.noise)])
     g.release()
-    return {"nontrivial": npol == 2 and nz is not None, "classes": [f"pol{npol}", "optnoise" if nz is not None else "clean", c["sel"], ("cw-ripple" if c["cw"] == "ripple" else "cw") if c["cw"] else "random", c["gv"]["form"]] + scale_cls}
+    return {"nontrivial": npol == 2 and nz is not None, "classes": [f"pol{npol}", "optnoise" if nz is not None else "clean", c["sel"], ("cw-ripple" if c["cw"] == "ripple" else "cw") if c["cw"] else "random", c["gv"]["form"]] + scale_cls + twin_cls}
 
 
 s_err = st.fixed_dictionaries({"what": st.sampled_from(["r0", "r-neg", "r>1", "r-type", "T-neg", "T-type", "R-neg", "R-type", "sel-type", "sel-unknown", "input"]),
